@@ -34,6 +34,10 @@ def build_mesh(m):
     elif m["kind"] == "3d":
         dom = Domain(Point(), Point(m["L"], m["H"]), m["ms"])
         mesh = mesher.Mesh_Extrude(dom, [], [0, 0, m["T"]], [m["layers"]], et, isOrganised=bool(m.get("organised", True)))
+    elif m["kind"] == "poly2d":
+        from EasyFEA.Geoms import Points
+        contour = Points([Point(*p) for p in m["points"]], m["ms"])
+        mesh = mesher.Mesh_2D(contour, [], et, isOrganised=False)
     elif m["kind"] == "beam":
         line = Line(Point(), Point(m["L"], 0, 0), m["ms"])
         beam = _beam_of(m, line)
